@@ -707,6 +707,12 @@ func (c *Ctx) Store(arr, idx, v *Term) *Term {
 	if arr.Op == OStore && arr.Args[1] == idx {
 		return c.Store(arr.Args[0], idx, v)
 	}
+	// storing the value the cell already holds is a no-op (sparse composite-literal initialisers)
+	if idx.IsConst() && v.IsConst() {
+		if cur := c.Select(arr, idx); cur == v {
+			return arr
+		}
+	}
 	return c.mk(OStore, arr.S, 0, "", arr, idx, v)
 }
 
